@@ -210,17 +210,18 @@ type worker struct {
 	verified map[string]bool
 
 	// statistics (merged at the end)
-	outcomes  map[string]int
-	states    map[[4]uint64]struct{}
-	nReq      int
-	nLoad     int
-	nScen     int
-	nPL       int
-	nHist     int
-	nReleases int
-	nMemo     int
-	panics    map[string]int
-	sbCache   map[sbKey][2]string
+	outcomes     map[string]int
+	states       map[[4]uint64]struct{}
+	nReq         int
+	nLoad        int
+	nScen        int
+	nPL          int
+	nHist        int
+	nReleases    int
+	nMemo        int
+	nMemoChecked int
+	panics       map[string]int
+	sbCache      map[sbKey][2]string
 }
 
 // sbKey holds every field that enters the sign-bytes of a vote / proposal (the cache below only saves
@@ -357,6 +358,9 @@ func (w *worker) exec(pv *types.FilePV, q request, idx, life int) outcome {
 		rel.api = q.api
 		out.released = rel
 		out.class = "signed"
+		if (w.curVote != nil && !w.curVote.Timestamp.Equal(stamps[q.ts])) || (w.curProp != nil && !w.curProp.Timestamp.Equal(stamps[q.ts])) {
+			out.class = "signed:original-timestamp-handed-back"
+		}
 	}
 	// a call that failed or panicked may still have left a signature in the caller's object; that is a
 	// release as well (the object is the caller's memory)
@@ -440,16 +444,29 @@ func sameRun(a, b *lifeRun) bool {
 // reads only the key file (checked on every execution: any look at another pre-existing path sets foreign
 // and the caller repeats the history without memoisation), so within one history the run is memoised by
 // (key file content, resume) - e.g. all crash points before the rename share one execution. Every 64th
-// hit is executed anyway and compared.
+// hit is executed anyway and compared. Runs whose surviving bytes are the initial key file, or that have at
+// most one remaining request, are also shared BETWEEN histories (cfg.gmemo), and the run "reload the initial
+// file, then the whole history" is the first lifetime itself. Releases in a memoised run carry indices
+// relative to resume.
 func (w *worker) recoverAndResume(cfg *config, st *vfs.FS, hist []int, resume int, memo map[memoKey]*lifeRun) *lifeRun {
 	var key memoKey
+	var gkey string
 	if memo != nil {
 		c, ok := st.Content(w.path)
 		key = memoKey{string(c), resume}
 		if !ok {
 			key.content = "\x00absent"
 		}
-		if run, hit := memo[key]; hit {
+		run, hit := memo[key]
+		if !hit && cfg.gmemo != nil && (key.content == cfg.c0 || len(hist)-resume <= 1) {
+			// shared between histories: same surviving bytes, same remaining requests
+			gkey = fmt.Sprint(hist[resume:]) + key.content
+			if v, ok := cfg.gmemo.Load(gkey); ok {
+				run, hit = v.(*lifeRun), true
+				memo[key] = run
+			}
+		}
+		if hit {
 			w.nMemo++
 			if w.nMemo%64 != 0 {
 				return run
@@ -458,6 +475,7 @@ func (w *worker) recoverAndResume(cfg *config, st *vfs.FS, hist []int, resume in
 			if !sameRun(run, again) {
 				vk.Fatalf("memoisation self-check failed: two crash states with the same key file content and the same remaining requests behaved differently (history %v, resume %d)", hist, resume)
 			}
+			w.nMemoChecked++
 			return run
 		}
 	}
@@ -470,7 +488,7 @@ func (w *worker) recoverAndResume(cfg *config, st *vfs.FS, hist []int, resume in
 	} else {
 		w.noteState(pv2, st)
 		for j := resume; j < len(hist); j++ {
-			run.outs = append(run.outs, w.exec(pv2, w.alpha[hist[j]], j, 1))
+			run.outs = append(run.outs, w.exec(pv2, w.alpha[hist[j]], j-resume, 1))
 			w.noteState(pv2, st)
 		}
 	}
@@ -488,6 +506,9 @@ func (w *worker) recoverAndResume(cfg *config, st *vfs.FS, hist []int, resume in
 	}
 	if memo != nil {
 		memo[key] = run
+		if gkey != "" {
+			cfg.gmemo.Store(gkey, run)
+		}
 	}
 	return run
 }
@@ -581,6 +602,10 @@ func (w *worker) runHistory1(cfg *config, hist []int, initFile []byte, useMemo b
 		return res
 	}
 	fslog := fs.Log()
+	if memo != nil {
+		// "crash before the first request": LoadFilePV(initial file) + the whole history is what was just run
+		memo[memoKey{string(initFile), 0}] = &lifeRun{outs: outs}
+	}
 
 	// ---- crash scenarios ----
 	// Every crash point of the log is attributed to the request whose operation is in flight
@@ -621,9 +646,12 @@ func (w *worker) runHistory1(cfg *config, hist []int, initFile []byte, useMemo b
 			}
 		}
 	}
-	for _, sc := range scens {
+	for si, sc := range scens {
 		if cfg.r.Expired() {
 			break
+		}
+		if w.nScen%50021 == 7 && w.id < 3 {
+			cfg.r.Sample(map[string]interface{}{"history": names, "scenario_index": si, "crash_point": sc.cp.String(), "boundary": sc.boundary, "resume_at_request": sc.resume})
 		}
 		w.nScen++
 		if sc.cp.PowerLoss() {
@@ -663,11 +691,13 @@ func (w *worker) runHistory1(cfg *config, hist []int, initFile []byte, useMemo b
 			report(finding{k, "LoadFilePV fails on the bytes a crash leaves behind (the validator cannot restart): " + run.fail}, desc, &sc.cp, fslog, "")
 			continue
 		}
-		for _, o := range run.outs {
-			r := o.released
-			if r == nil {
+		for k, o := range run.outs {
+			if o.released == nil {
 				continue
 			}
+			rr := *o.released
+			rr.life, rr.idx = 1, sc.resume+k
+			r := &rr
 			w.nReleases++
 			if !w.verify(r) {
 				report(finding{"released-signature-invalid", "a signature was released that does not verify over the payload handed back with it"}, desc, &sc.cp, fslog, "")
@@ -689,6 +719,8 @@ type config struct {
 	r         *vk.Run
 	crashes   bool
 	powerLoss bool
+	gmemo     *sync.Map // nil: no sharing between histories
+	c0        string    // the initial key file
 }
 
 type phase struct {
@@ -773,7 +805,7 @@ func main() {
 	if r.Quick() {
 		phases = []phase{
 			{"full-alphabet/depth<=2", full, 2},
-			{"reduced-alphabet/depth3", alphabet([]uint64{1, 2}, []int{0, 1}, 2, 1, true), 3},
+			{"reduced-alphabet/depth3", alphabet([]uint64{1, 2}, []int{0, 1}, 2, 1, false), 3},
 		}
 	} else {
 		phases = []phase{
@@ -838,6 +870,7 @@ func main() {
 				all = append(all, w)
 				pool <- w
 			}
+			cfg.gmemo, cfg.c0 = &sync.Map{}, string(initFile)
 			start := time.Now()
 			var done int64
 			var dmu sync.Mutex
@@ -920,6 +953,7 @@ func main() {
 	r.Set("requests_executed", total.nReq)
 	r.Set("reloads", total.nLoad)
 	r.Set("recoveries_memoised", total.nMemo)
+	r.Set("memoised_recoveries_re_executed_and_compared", total.nMemoChecked)
 	r.Set("releases_checked", total.nReleases)
 	r.Set("outcomes", total.outcomes)
 	if len(total.panics) > 0 {
@@ -935,10 +969,10 @@ func main() {
 	}
 	r.Set("states", len(total.states))
 	r.Set("transitions", total.nReq+total.nLoad)
-	r.Set("traces_validated_against_impl", total.nHist+total.nScen)
+	r.Set("traces_validated_against_impl", total.nLoad)
 	r.Set("evaluations", total.nHist+total.nScen)
 	r.Set("distinct_nontrivial", len(total.states)+len(total.outcomes))
-	r.Set("rule", "every history of signing requests over the alphabet up to the depth x every crash state of its file-system log (each op boundary inside and between calls, torn writes, lost unsynced data) is executed on the real FilePV / LoadFilePV / WriteFileAtomic; oracle over all releases of both process lifetimes. states = distinct (in-memory last-signed record, key file content) pairs seen after any request or reload; transitions = requests + reloads executed on the real code; non-trivial = states + distinct request outcomes")
+	r.Set("rule", "every history of signing requests over the alphabet up to the depth x every crash state of its file-system log (each op boundary inside and between calls, torn writes, lost unsynced data) is executed on the real FilePV / LoadFilePV / WriteFileAtomic; oracle over all releases of both process lifetimes. states = distinct (in-memory last-signed record, key file content) pairs seen after any request or reload; transitions = requests + reloads executed on the real code; traces_validated_against_impl = process lifetimes executed on the real code (crash states with identical surviving key file and identical remaining requests share one execution; every 64th shared one is re-executed and compared); non-trivial = states + distinct request outcomes")
 	r.Assume("a signature counts as released from the moment it is stored in the caller's Vote/Proposal object (checked at every file-system operation boundary inside the call), and at the latest when the call returns without error")
 	r.Assume("process-crash model: completed file operations survive, the one in flight is absent, complete, or (a write) applied to half its bytes")
 	r.Assume("power-loss model: additionally any suffix of the data written through a handle without O_SYNC and not yet fsync'ed is lost (first lost write possibly torn at half); create/rename/remove/truncate are atomic, durable on return and ordered after synced data; directory-entry durability of rename without a directory fsync is NOT modelled")
@@ -976,4 +1010,5 @@ func (w *worker) merge(o *worker) {
 	w.nHist += o.nHist
 	w.nReleases += o.nReleases
 	w.nMemo += o.nMemo
+	w.nMemoChecked += o.nMemoChecked
 }
